@@ -1123,6 +1123,12 @@ def case_save(ctx, gtype, specs, nseeds):
     from cnfgen.clitools.graph_args import formats
     r = ctx.rng("c15-save", gtype, repr(specs))
     tmp = tempfile.mkdtemp(prefix="vmon-c15-")
+    other_fs = None
+    try:
+        if os.path.isdir("/dev/shm") and os.access("/dev/shm", os.W_OK) and os.stat("/dev/shm").st_dev != os.stat(tmp).st_dev:
+            other_fs = tempfile.mkdtemp(prefix="vmon-c15-", dir="/dev/shm")
+    except OSError:
+        other_fs = None
     try:
         n = 0
         for spec in specs:
@@ -1131,6 +1137,10 @@ def case_save(ctx, gtype, specs, nseeds):
                     for _ in range(nseeds):
                         n += 1
                         path = os.path.join(tmp, "g%d.%s" % (n, "txt" if explicit else fmt))
+                        if other_fs and n % 3 == 0:
+                            # a target on another file system than the default temporary directory
+                            path = os.path.join(other_fs, "g%d.%s" % (n, "txt" if explicit else fmt))
+                            ctx.count("save_targets_on_another_file_system")
                         where = (["save", fmt, path] if explicit else ["save", path])
                         # `save` may stand anywhere among the options
                         cut = len(spec)
@@ -1179,6 +1189,8 @@ def case_save(ctx, gtype, specs, nseeds):
                                    sample={"spec": " ".join(shown), "format": fmt, "graph": show(g)})
     finally:
         shutil.rmtree(tmp, ignore_errors=True)
+        if other_fs:
+            shutil.rmtree(other_fs, ignore_errors=True)
     flush_counts(ctx)
 
 
